@@ -104,8 +104,22 @@ class Tr:
         # translate in dependency order (a method is translated when first needed)
         self.order = []
         self.inprogress = set()
+        known = set(LNAME) | {'rad', 'dec', 'deca', 'hp', 'hpa', 'gon', 'gona', 'dms', 'ddm'}
         for key in list(self.methods):
-            self.need(key)
+            if key[1] in known:
+                self.need(key)
+        for key in list(self.methods):
+            if key[1] not in known and key not in self.texts:
+                # a method the model does not know: translated when possible, otherwise left out (a modelled method
+                # that calls it is rejected at the call)
+                saved = (dict(self.texts), dict(self.kinds), list(self.order), list(self.dropped))
+                try:
+                    self.need(key)
+                except TranslateError as e:
+                    self.texts, self.kinds, self.order, self.dropped = saved
+                    self.inprogress.clear()
+                    del self.methods[key]
+                    self.dropped.append(f'method {key[0]}Angle.{key[1]} (not modelled: {str(e)[-80:]})')
         return self.emit()
 
     def need(self, key, node=None):
@@ -491,6 +505,9 @@ def main():
         txt = Tr(os.path.join(a.repo, 'geodepy', 'angles.py')).run()
     except (TranslateError, SyntaxError, OSError) as e:
         print(f'TRANSLATE-ERROR {e}')
+        sys.exit(3)
+    except Exception as e:      # noqa  (an unanticipated construct is a translation failure, not a crash)
+        print(f'TRANSLATE-ERROR unexpected {type(e).__name__}: {e}')
         sys.exit(3)
     old = open(a.out).read() if os.path.exists(a.out) else None
     if old != txt:
